@@ -1165,7 +1165,7 @@ impl<'a> Gen<'a> {
 
     fn match_expr(&mut self, ty: &Ty, d: u32) -> Option<Expr> {
         // scrutinee: int, bool, tuple, enum, option/result
-        let choice = self.rng.below(6);
+        let choice = self.rng.below(9);
         let d1 = d.saturating_sub(1);
         match choice {
             0 => {
@@ -1221,6 +1221,12 @@ impl<'a> Gen<'a> {
                         arms.push((Pat::Wild, self.arm_body(ty, d1, &[])));
                         break;
                     }
+                    // a refutable arm first, so that the full arm below is reached through a failed comparison
+                    if ts.len() >= 2 && matches!(ts[0], Ty::Int | Ty::Bool) && self.rng.chance(1, 2) {
+                        let mut ps: Vec<Pat> = ts.iter().map(|_| Pat::Wild).collect();
+                        ps[0] = if ts[0] == Ty::Int { Pat::Int(self.rng.below(3) as i64) } else { Pat::Bool(self.rng.chance(1, 2)) };
+                        arms.push((Pat::Variant(c.clone(), ps), self.arm_body(ty, d1, &[])));
+                    }
                     let mut ps = vec![];
                     let mut binds = vec![];
                     for t in ts {
@@ -1260,6 +1266,81 @@ impl<'a> Gen<'a> {
                     (Pat::Variant("err".into(), vec![Pat::Bind(y.clone())]), self.arm_body(ty, d1, &[(y, Ty::Str)])),
                 ];
                 self.hit("match_result");
+                Some(Expr::Match(Box::new(s), arms))
+            }
+            6 | 7 if !self.o.no_unit_vars => {
+                // product with void components (no stack slot): an earlier arm fails on a refutable sub-pattern of an
+                // earlier component, a later arm is taken
+                let shapes: [&[Ty]; 7] = [
+                    &[Ty::Int, Ty::Unit],
+                    &[Ty::Int, Ty::Str, Ty::Unit],
+                    &[Ty::Unit, Ty::Int, Ty::Bool],
+                    &[Ty::Int, Ty::Unit, Ty::Unit],
+                    &[Ty::Bool, Ty::Unit],
+                    &[Ty::Int, Ty::Unit, Ty::Str],
+                    &[Ty::Unit, Ty::Unit, Ty::Int, Ty::Unit],
+                ];
+                let ts: Vec<Ty> = self.rng.pick(&shapes).to_vec();
+                let s = self.scrutinee(&Ty::Tuple(ts.clone()), d1.max(1));
+                let mut arms = vec![];
+                // the key component carries a distinct literal in every refutable arm (no redundant arm)
+                let key = ts.iter().position(|t| matches!(t, Ty::Int | Ty::Bool)).unwrap_or(0);
+                let narms = if ts[key] == Ty::Bool { 1 } else { 2 + self.rng.below(2) };
+                for j in 0..narms {
+                    let mut ps = vec![];
+                    for (i, t) in ts.iter().enumerate() {
+                        ps.push(match t {
+                            Ty::Int if i == key => Pat::Int(j as i64),
+                            Ty::Bool if i == key => Pat::Bool(self.rng.chance(1, 2)),
+                            Ty::Str if self.rng.chance(1, 3) => Pat::Str(self.str_lit()),
+                            Ty::Bool if self.rng.chance(1, 3) => Pat::Bool(self.rng.chance(1, 2)),
+                            Ty::Unit if self.rng.chance(1, 3) => Pat::Unit,
+                            _ => Pat::Wild,
+                        });
+                    }
+                    arms.push((Pat::Tuple(ps), self.arm_body(ty, d1, &[])));
+                }
+                let mut ps = vec![];
+                let mut binds = vec![];
+                for t in &ts {
+                    if self.rng.chance(1, 2) {
+                        ps.push(Pat::Wild);
+                    } else {
+                        let x = self.fresh("v");
+                        ps.push(Pat::Bind(x.clone()));
+                        binds.push((x, t.clone()));
+                    }
+                }
+                arms.push((Pat::Tuple(ps), self.arm_body(ty, d1, &binds)));
+                self.hit("match_product_void");
+                Some(Expr::Match(Box::new(s), arms))
+            }
+            8 if !self.prog.structs.is_empty() => {
+                let i = self.rng.below(self.prog.structs.len() as u64) as usize;
+                let def = self.prog.structs[i].clone();
+                if !def.fields.iter().any(|(_, t)| matches!(t, Ty::Int | Ty::Bool)) {
+                    return None;
+                }
+                let s = self.scrutinee(&Ty::Struct(i), d1.max(1));
+                let mut arms = vec![];
+                let key = def.fields.iter().position(|(_, t)| matches!(t, Ty::Int | Ty::Bool)).unwrap();
+                let narms = if def.fields[key].1 == Ty::Bool { 1 } else { 2 };
+                for j in 0..narms {
+                    let ps = def
+                        .fields
+                        .iter()
+                        .enumerate()
+                        .map(|(i, (_, t))| match t {
+                            Ty::Int if i == key => Pat::Int(j as i64),
+                            Ty::Bool if i == key => Pat::Bool(self.rng.chance(1, 2)),
+                            Ty::Unit if self.rng.chance(1, 3) => Pat::Unit,
+                            _ => Pat::Wild,
+                        })
+                        .collect();
+                    arms.push((Pat::Struct(def.name.clone(), ps), self.arm_body(ty, d1, &[])));
+                }
+                arms.push((Pat::Struct(def.name.clone(), def.fields.iter().map(|_| Pat::Wild).collect()), self.arm_body(ty, d1, &[])));
+                self.hit("match_struct");
                 Some(Expr::Match(Box::new(s), arms))
             }
             _ => None,
@@ -1789,6 +1870,9 @@ impl<'a> Gen<'a> {
                 let t = if !self.o.no_unit_vars && self.rng.chance(1, 10) { Ty::Unit } else if self.rng.chance(1, 8) { Ty::Array(Box::new(Ty::Int)) } else { self.scalar() };
                 fields.push((format!("f{j}"), t));
             }
+            if !self.o.no_unit_vars && self.rng.chance(1, 4) {
+                fields.push((format!("f{nf}"), Ty::Unit));
+            }
             self.prog.structs.push(StructDef { name: format!("St{k}"), fields });
         }
         let ne = 1 + self.rng.below(2) as usize;
@@ -1797,7 +1881,13 @@ impl<'a> Gen<'a> {
             let mut ctors = vec![];
             for j in 0..nc {
                 let na = self.rng.below(3) as usize;
-                ctors.push((format!("K{k}x{j}"), (0..na).map(|_| self.scalar()).collect()));
+                let mut ats: Vec<Ty> = (0..na).map(|_| self.scalar()).collect();
+                // multi-field variants with void components (e.g. `Cc(bool, void)`)
+                if !self.o.no_unit_vars && !ats.is_empty() && self.rng.chance(1, 3) {
+                    let pos = self.rng.below(ats.len() as u64 + 1) as usize;
+                    ats.insert(pos, Ty::Unit);
+                }
+                ctors.push((format!("K{k}x{j}"), ats));
             }
             self.prog.enums.push(EnumDef { name: format!("En{k}"), ctors });
         }
